@@ -119,6 +119,7 @@ type goVerdict struct {
 type prelude struct {
 	decls string   // "const a = ...\nconst b = ...\n"
 	names []string // a, b
+	key   string   // if not empty, replaces the operator and operand classes in failure keys
 }
 
 func goSource(pre prelude, e string) string {
@@ -306,7 +307,10 @@ func goJudge(pre prelude, e string) (*goVerdict, error) {
 		v.op = "unary" + n.Op.String()
 		operands = []ast.Expr{n.X}
 	case *ast.CallExpr:
-		v.op = "conv-" + types.ExprString(n.Fun)
+		v.op = "call-" + types.ExprString(n.Fun)
+		if tv, isType := info.Types[n.Fun]; isType && tv.IsType() {
+			v.op = "conv-" + className(tv.Type)
+		}
 		operands = []ast.Expr{n.Args[0]}
 	default:
 		v.op = "literal"
@@ -315,8 +319,8 @@ func goJudge(pre prelude, e string) (*goVerdict, error) {
 		v.operands = append(v.operands, typeClass(info, x))
 		x = ast.Unparen(x)
 		switch x.(type) {
-		case *ast.BasicLit, *ast.Ident:
-		default:
+		case *ast.Ident:
+		default: // literals too: a literal that is mishandled on its own explains the expressions that contain it
 			v.subs = append(v.subs, src[fset.Position(x.Pos()).Offset:fset.Position(x.End()).Offset])
 		}
 	}
@@ -532,7 +536,9 @@ func checkBlock(pre prelude, e string) kit.Outcome {
 			opKey += " " + names[i] + "=" + c
 		}
 	}
-	if len(pre.names) > 0 {
+	if pre.key != "" {
+		opKey = pre.key
+	} else if len(pre.names) > 0 {
 		opKey = "named-constants " + opKey
 		e = e + "   // after: " + strings.ReplaceAll(strings.TrimSpace(pre.decls), "\n", "; ")
 	}
@@ -557,6 +563,11 @@ func checkBlock(pre prelude, e string) kit.Outcome {
 			fmt.Sprintf("const c = %s\ngo/types: accepted, c = %s (%s)\nscriggo.Build: %s", e, gv.val.ExactString(), gv.typ, sr.msg))
 	}
 	cClass := className(gv.typ)
+	if !fitsMantissa512(gv.val) {
+		// go/constant keeps exact rationals of any size; an implementation with a
+		// 512-bit mantissa (the specification asks for 256) may round differently
+		opKey += " [the exact value needs more than a 512-bit mantissa]"
+	}
 	ops := 2
 	head := fmt.Sprintf("const c = %s\ngo/types: c = %s (%s)\n", e, gv.val.ExactString(), gv.typ)
 
@@ -673,6 +684,11 @@ func runProbes(base, head, opKey string, probes []probe) (kit.Outcome, bool) {
 	}
 	for i, pr := range probes {
 		if !sameValue(got[i], pr.want) {
+			if got[i] == pr.want {
+				// equal for ==: they differ by the sign of a zero
+				return fail(fmt.Sprintf("negative zero in a %T value (Go constants have no -0)", pr.want),
+					fmt.Sprintf("%sprint(%s)\nexpected %T %v\nobserved %T %v", head, pr.what, pr.want, pr.want, got[i], got[i])), true
+			}
 			return fail(pr.key, fmt.Sprintf("%sprint(%s)\nexpected %T %v\nobserved %T %v", head, pr.what, pr.want, pr.want, got[i], got[i])), true
 		}
 	}
@@ -700,6 +716,28 @@ func sameValue(got, want any) bool {
 		return ok && f(float64(real(g)), float64(real(w))) && f(float64(imag(g)), float64(imag(w)))
 	}
 	return got == want
+}
+
+// fitsMantissa512 reports whether val (or both its parts) is exactly
+// representable with a mantissa of 512 bits.
+func fitsMantissa512(val constant.Value) bool {
+	switch val.Kind() {
+	case constant.Complex:
+		return fitsMantissa512(constant.Real(val)) && fitsMantissa512(constant.Imag(val))
+	case constant.Float:
+		f := new(big.Float).SetPrec(512)
+		switch x := constant.Val(val).(type) {
+		case *big.Rat:
+			f.SetRat(x)
+			if !x.IsInt() && new(big.Int).And(x.Denom(), new(big.Int).Sub(x.Denom(), big.NewInt(1))).Sign() != 0 {
+				return true // not a dyadic rational: no binary mantissa holds it, the comparison is after rounding anyway
+			}
+		case *big.Float:
+			f.Set(x)
+		}
+		return f.Acc() == big.Exact
+	}
+	return true
 }
 
 // rounded512IsInt reports whether the non-integer floating-point constant val
